@@ -59,6 +59,23 @@ type cfgSpec struct {
 	StressRate   uint64            `json:"stress_rate,omitempty"`
 	KeptSize     uint              `json:"kept_size,omitempty"` // total kept-decision capacity (default 1000)
 	TxDelayUs    int64             `json:"tx_delay_us,omitempty"` // the upstream transmission takes this long (virtual) per span: a slow Honeycomb
+	// every trace decision takes this long (virtual): a worker can then be found in the middle of a
+	// decision round by the next operation (a Stop, a reload) instead of only between rounds
+	DecideDelayUs int64 `json:"decide_delay_us,omitempty"`
+}
+
+// slowDecisionMetrics parks the calling collector worker (virtual time) at the start of every trace
+// decision: makeDecision reports the trace_span_count histogram first.
+type slowDecisionMetrics struct {
+	*metrics.MockMetrics
+	delay time.Duration
+}
+
+func (m slowDecisionMetrics) Histogram(name string, val float64) {
+	if name == "trace_span_count" {
+		time.Sleep(m.delay)
+	}
+	m.MockMetrics.Histogram(name, val)
 }
 
 type reloadSpec struct {
@@ -435,6 +452,9 @@ func runInBubble(c colCase, opt execOpts, obs *colObs) {
 		Health: nopHealth{}, Transmission: tx, PeerTransmission: peerTx, PubSub: ps, Metrics: met,
 		StressRelief: sr, SamplerFactory: sf, Peers: peers,
 		Sharder: &sharder.MockSharder{Self: &sharder.TestShard{Addr: "api1"}, Other: &sharder.TestShard{Addr: "api2"}},
+	}
+	if c.Cfg.DecideDelayUs > 0 {
+		coll.Metrics = slowDecisionMetrics{met, time.Duration(c.Cfg.DecideDelayUs) * time.Microsecond}
 	}
 	if err := coll.Start(); err != nil {
 		panic(err)
